@@ -15,6 +15,6 @@ def run(ck):
     ex = _sys.run_sys(ck, "c16")
     ck.evaluations = ev + ck.stats.get("direct_clauses_evaluated", 0)
     ck.distinct = di + ck.stats.get("scenarios", 0)
-    ck.rule = rule + "; plus whole broker back-pressure scenarios (window 1..3, session queue 1..3, bursts larger than both, subscriber acknowledging at once or after a pause): every message arrives, in order, the publisher gets every acknowledgement (progress, in_order, shutdown)"
+    ck.rule = rule + "; plus whole broker back-pressure scenarios (window 1..3, session queue 1..3, bursts larger than both, subscriber acknowledging at once or after a pause): every message arrives, in order, the publisher gets every acknowledgement (progress, in_order, shutdown); bursts filling a window of 2 after idle periods of 1.6 token timeouts, after connect and after a first burst (progress); a subscriber withholding every acknowledgement while 2*window+2 messages are published holds exactly the configured window of distinct deliveries, window 3 on a first / resumed / taken-over connection, window 12 on a resumed one (window_bound)"
     if ex:
         ck.samples = ck.samples[:4] + [l for l in ex if l.startswith("direct ")][:3]
